@@ -255,9 +255,18 @@ class Party(sut.BaseAlgorithm):
                 max_pilot=np.array(inf.max_pilot).tolist(), min_pilot=np.array(inf.min_pilot).tolist(),
                 allowable=[np.array(a).tolist() for a in inf.allowable_pilots],
                 is_continuous=[bool(x) for x in inf.is_continuous])
-            rec["per_station"] = {i: dict(max=float(iface.max_pilot_signal(i)), min=float(iface.min_pilot_signal(i)),
-                                          allow=iface.allowable_pilot_signals(i), volt=float(iface.evse_voltage(i)),
-                                          phase=float(iface.evse_phase(i))) for i in self.order}
+            rec["per_station"] = {}
+            for i in self.order:
+                al_ = iface.allowable_pilot_signals(i)
+                rec["per_station"][i] = dict(max=float(iface.max_pilot_signal(i)), min=float(iface.min_pilot_signal(i)),
+                                             allow=(al_[0], [float(x) for x in al_[1]]), volt=float(iface.evse_voltage(i)),
+                                             phase=float(iface.evse_phase(i)))
+                # (the scheduler converts the list it was given to kW for its own report: the list is its own)
+                try:
+                    al_[1][:] = [float(x) * 0.208 for x in al_[1]]
+                    al_[1].append(-1.0)
+                except (TypeError, AttributeError, ValueError):
+                    pass
 
     def mutate_handed(self, iface, handed_sessions):
         """Scribble over everything the interface handed out (C05 isolation)."""
